@@ -149,6 +149,9 @@ type NS []*T0
 func (NS) GetProv() Prov { return Zero }
 func (NS) IsI0()         {}
 
+// NS2 is another named slice type over the same element type.
+type NS2 []*T0
+
 var types = map[string]reflect.Type{
 	"T0": reflect.TypeOf((*T0)(nil)),
 	"T1": reflect.TypeOf((*T1)(nil)),
